@@ -550,6 +550,30 @@ def copyLoc (keepParent : Bool) (next : Nat) (t : T) : Loc :=
   let cp := copyT (if keepParent then t.info.par else none) none t next
   { node := t, upd := .keep, next := cp.2, out := some cp.1 }
 
+/-- `node.add_measurements(ms)`: reads `body_duration` (which fills the node's cache) and appends
+the windows shifted to the end of the current body.  An empty batch on a node without measurements
+stores `[]` where there was `None`; both are the empty list here, as for `Loop.__eq__`
+(`(a or None) == (b or None)`). -/
+def addMeasLoc (ms : List Meas) (next : Nat) (t : T) : Loc :=
+  let f := fillV t
+  let shifted := if f.2 = 0 then ms else ms.map (fun m => { m with start := m.start + f.2 })
+  okLoc (f.1.upd (fun i => { i with meas := i.meas ++ shifted })) .keep next
+
+mutual
+/-- `node.get_measurement_windows(drop=True)`: every node of the sub-tree loses its measurements;
+a leaf reads its own `body_duration`, an inner node reads `child.duration` of every child (so all
+caches below the addressed node are filled, its own only if it is a leaf) -/
+def dropT : T → T
+  | .mk i ks =>
+    if ks.isEmpty then (fillV (.mk { i with meas := [] } ks)).1
+    else .mk { i with meas := [] } (dropL ks)
+def dropL : List T → List T
+  | [] => []
+  | c :: cs => (fillV (dropT c)).1 :: dropL cs
+end
+
+def dropMeasLoc (next : Nat) (t : T) : Loc := okLoc (dropT t) .keep next
+
 /-! ## Operations -/
 
 inductive Op where
@@ -568,6 +592,8 @@ inductive Op where
   | reverse (p : Path)
   | roll (p : Path) (minq quantum : Int) (sr : Rat)
   | copy (p : Path) (keepParent : Bool)
+  | addMeas (p : Path) (ms : List Meas)
+  | dropMeas (p : Path)
 
 structure St where
   tree : T
@@ -591,7 +617,7 @@ where uidBoundL : List T → Nat
 def Op.target : Op → Path
   | .query p | .append p _ | .setItem p _ _ | .setSlice p _ _ _ _ | .setWf p _ | .setRep p _ _
   | .unrollChildren p | .split p _ | .encapsulate p | .merge p | .cleanup p _ _ | .reverse p
-  | .roll p _ _ _ | .copy p _ => p
+  | .roll p _ _ _ | .copy p _ | .addMeas p _ | .dropMeas p => p
   | .unroll p => p.dropLast
 
 def Op.loc (next : Nat) : Op → T → Loc
@@ -612,6 +638,8 @@ def Op.loc (next : Nat) : Op → T → Loc
   | .reverse _ => reverseLoc next
   | .roll _ mq q sr => rollLoc mq q sr next
   | .copy _ kp => copyLoc kp next
+  | .addMeas _ ms => addMeasLoc ms next
+  | .dropMeas _ => dropMeasLoc next
 
 /-- one public operation on the tree -/
 def applyR (op : Op) (s : St) : Res :=
@@ -782,6 +810,8 @@ def op? : Sexp → Option Op
   | .list [.atom "reverse", p] => do some (.reverse (← path? p))
   | .list [.atom "roll", p, mq, q, sr] => do some (.roll (← path? p) (← int? mq) (← int? q) (← rat? sr))
   | .list [.atom "copy", p, kp] => do some (.copy (← path? p) (← bool? kp))
+  | .list [.atom "addmeas", p, .list ms] => do some (.addMeas (← path? p) (← ms.mapM meas?))
+  | .list [.atom "dropmeas", p] => do some (.dropMeas (← path? p))
   | _ => none
 
 def errName : Err → String
